@@ -390,6 +390,13 @@ func (e *env) checkPagination(dir string, items []item, r request) (pages int, m
 			vlib.Excluded(key)
 			return pages, ""
 		}
+		if pages > 0 {
+			// listing removes the expired entries it meets; put them back so that every page request runs against
+			// the stated contents (the known-finding input classes are defined on those)
+			if err := e.putAll(dir, items); err != nil {
+				return pages, "setup: " + err.Error()
+			}
+		}
 		res := e.call(dir, cur)
 		if res.err != nil {
 			return pages, fmt.Sprintf("page %d %s failed: %v", pages+1, cur, res.err)
@@ -518,15 +525,15 @@ func excludedByKnown(kind string, items []item, r request) string {
 // filtered-out entries) far enough to decide whether a request belongs to the
 // input class of a listed finding. It is used for nothing else.
 //
-//   finalEmpty  the chain ends with a read that finds nothing; the lastFileName
-//               handed back is then "" although entries were returned
-//               (C19-lastfilename-reset: the gRPC handler continues from "")
-//   midEmpty    such an empty read is followed by the refill for filtered-out
-//               entries, which then restarts from "" (same finding)
-//   generic     only for stores without native prefix listing: some read asks
-//               prefixFilterEntries for n entries while the next n entries of the
-//               directory do not all carry the prefix, so it needs a second page
-//               (C19-generic-prefix-refill)
+//	finalEmpty  the chain ends with a read that finds nothing; the lastFileName
+//	            handed back is then "" although entries were returned
+//	            (C19-lastfilename-reset: the gRPC handler continues from "")
+//	midEmpty    such an empty read is followed by the refill for filtered-out
+//	            entries, which then restarts from "" (same finding)
+//	generic     only for stores without native prefix listing: some read asks
+//	            prefixFilterEntries for n entries while the next n entries of the
+//	            directory do not all carry the prefix, so it needs a second page
+//	            (C19-generic-prefix-refill)
 func simulate(generic bool, items []item, r request) (finalEmpty, midEmpty, genericUnsafe bool) {
 	eff := r.Prefix
 	rest := ""
@@ -718,6 +725,9 @@ func TestPropListingExhaustive(t *testing.T) {
 		filters = []filt{{}, {prefix: "ab"}, {pattern: "a*"}, {pattern: "*b", exclude: "ab*"}}
 	}
 	kinds := []string{fkit.LevelDB, fkit.LevelDB2, fkit.LevelDB3, fkit.Mem}
+	if !vlib.Thorough() {
+		kinds = []string{fkit.LevelDB2, fkit.Mem}
+	}
 	idx := 0
 	for subset := 0; subset < 1<<len(exNames); subset++ {
 		for colouring := 0; colouring < 2; colouring++ {
